@@ -149,7 +149,18 @@ func NewRateLimitScanner(delegate Scanner, limiter RateLimiter) Scanner {
 }
 
 func (s *rateLimitScanner) Scan(ctx context.Context, r *Request) (Result, error) {
-	s.limiter.Take()
+	// Take sleeps until the next slot (a whole rate window with a rate like 1/m) and cannot
+	// be interrupted: it must not keep a cancelled scan from returning
+	taken := make(chan struct{})
+	go func() {
+		defer close(taken)
+		s.limiter.Take()
+	}()
+	select {
+	case <-ctx.Done():
+		return nil, ctx.Err()
+	case <-taken:
+	}
 	return s.Scanner.Scan(ctx, r)
 }
 
